@@ -27,6 +27,8 @@ type SpecEnv struct {
 	callArgs []*Val            // arg(i) inside an "at <callee> n" block
 	atCallSite bool            // a callee's contract instantiated at a call: res() of the callee's own calls is unknown
 	skip     *bool             // set when the clause cannot be expressed in this context
+	oldVars  map[string]*Val   // parameter values at function entry (for old())
+	forced   map[string]bool   // names whose binding in vars overrides program-point resolution (loop phis)
 }
 
 // typed records the type invariant (integer range, slice shape) of a value read from the heap.
@@ -74,8 +76,13 @@ func (e *SpecEnv) with(vars map[string]*Val) *SpecEnv {
 	for k, v := range e.vars {
 		n.vars[k] = v
 	}
+	n.forced = map[string]bool{}
+	for k := range e.forced {
+		n.forced[k] = true
+	}
 	for k, v := range vars {
 		n.vars[k] = v
+		n.forced[k] = true
 	}
 	return &n
 }
@@ -84,6 +91,11 @@ func (e *SpecEnv) inOld() *SpecEnv {
 	n := *e
 	if e.old != nil {
 		n.cur = e.old
+	}
+	if e.oldVars != nil {
+		// old(x) of a parameter is its value at entry, whatever has been assigned to it since
+		n.vars = e.oldVars
+		n.resolve = nil
 	}
 	return &n
 }
@@ -214,13 +226,17 @@ func (e *SpecEnv) eval(x ast.Expr) *Val {
 		case "nil":
 			return &Val{T: types.Typ[types.UntypedNil], S: "0"}
 		}
-		if v, ok := e.vars[x.Name]; ok {
+		if v, ok := e.vars[x.Name]; ok && (e.resolve == nil || e.forced[x.Name] || strings.HasPrefix(x.Name, "$") || x.Name == "iter" || e.bound["q!"+x.Name] != "") {
 			return v
 		}
 		if e.resolve != nil {
+			// current value of the source-level variable at this program point (parameters may have been reassigned)
 			if v := e.resolve(x.Name); v != nil {
 				return v
 			}
+		}
+		if v, ok := e.vars[x.Name]; ok {
+			return v
 		}
 		if v := e.lookupConst("", x.Name); v != nil {
 			return v
